@@ -169,7 +169,23 @@ func (p *Prog) restrictedCheck(o *Obligation, kf *KnownFinding, dir string, time
 	outside := mk("~outside", not(cls))
 	inside := mk("~inside", cls)
 	r1 := p.u.Solve(outside, dir, timeoutS, false)
+	if (r1.Status == "unknown" || r1.Status == "timeout") && os.Getenv("GOVC_NO_RETRY") == "" {
+		// same second chance as for ordinary obligations: an undecided re-proof outside the listed class would be
+		// reported as a new violation
+		p.u.retryLite = true
+		if r := p.u.Solve(outside, dir, retryFactor*timeoutS, false); r.Status == "unsat" {
+			r.Backend += "+retry"
+			r1 = r
+		}
+		p.u.retryLite = false
+	}
+	// the canary (does the finding still reproduce inside its class?) only feeds a note: the short race is enough
+	p.u.stage1Only = true
 	r2 := p.u.Solve(inside, dir, timeoutS, false)
+	p.u.stage1Only = false
+	if os.Getenv("GOVC_SLOW") != "" {
+		fmt.Printf("  restricted re-proof %s: outside %s %d ms stage%d %s; inside %s %d ms\n", o.Name, r1.Status, r1.Ms, r1.Stage, r1.Backend, r2.Status, r2.Ms)
+	}
 	return r1.Status == "unsat", r2.Status != "unsat", nil
 }
 
